@@ -136,7 +136,7 @@ theorem bucketOf_congr (bs : List (V × List V)) {k k2 : V} (h : keyEq k k2 = tr
     holds `A0` (the entries of the colliding bucket's sub-tree) followed by the buckets since;
     every bucket since has its sub-tree; whatever else is in the tree (`rest`) is stale -/
 def PostInv (id : Nat) (sub : GSpec) (A0 : List (V × V)) (bs : List (V × List V)) (tree : List (V × V)) : Prop :=
-  ∃ rest, tree = (idKey id, .dict (A0 ++ bs.map (fun b => (b.1, valOfC true sub b.2)))) :: rest ∧
+  ∃ rest, tree = (idKey id, .dict (A0 ++ bs.map (fun b => (b.1, implOf sub b.2)))) :: rest ∧
     allDicts rest ∧ ∀ k, bhas bs k = true → dget rest k = some (.dict (treeOf sub (bucketOf bs k)))
 
 /-- what the hypotheses say about one item of the part after the collision -/
@@ -148,11 +148,11 @@ structure PostItem (id : Nat) (key : Fn) (A0 : List (V × V)) (x : V) : Prop whe
 
 theorem post_step (id kid : Nat) (key : Fn) (sub : GSpec) (A0 : List (V × V)) (seg : List V) (x : V)
     (tree : List (V × V)) (hinv : PostInv id sub A0 (buckets key seg) tree)
-    (hx : PostItem id key A0 x) (hsubH : Hyp true sub (seg ++ [x]))
+    (hx : PostItem id key A0 x) (hD : Hyp false (.dict id kid key sub) (seg ++ [x]))
     (hef : eventFree (.dict id kid key sub) seg = true)
     (hs : stopsAt (.dict id kid key sub) seg x = false) :
     ∃ tree', gstep (.dict id kid key sub) x tree =
-        .ok (.dict (A0 ++ (buckets key (seg ++ [x])).map (fun b => (b.1, valOfC true sub b.2))), tree') ∧
+        .ok (.dict (A0 ++ (buckets key (seg ++ [x])).map (fun b => (b.1, implOf sub b.2))), tree') ∧
       PostInv id sub A0 (buckets key (seg ++ [x])) tree' := by
   obtain ⟨rest, htree, hdicts, hsubs⟩ := hinv
   have hkap := apply_of_ok hx.ap
@@ -160,7 +160,7 @@ theorem post_step (id kid : Nat) (key : Fn) (sub : GSpec) (A0 : List (V × V)) (
   have hslot_obj : keyEq (idKey id) (.obj kid) = false := keyEq_id_obj id kid
   have hhas : dhas tree (idKey id) = true := by simp [htree, dhas, dget, keyEq_idKey]
   have hacc : subTree tree (idKey id) =
-      .ok (A0 ++ (buckets key seg).map (fun b => (b.1, valOfC true sub b.2))) := by
+      .ok (A0 ++ (buckets key seg).map (fun b => (b.1, implOf sub b.2))) := by
     simp [htree, subTree, dget, keyEq_idKey]
   have hmark : isMarked tree (.obj kid) = false := by
     have : isMarked tree (.obj kid) = isMarked rest (.obj kid) := by
@@ -181,7 +181,7 @@ theorem post_step (id kid : Nat) (key : Fn) (sub : GSpec) (A0 : List (V × V)) (
     have hkk : keyEq (key.val x) (key.val x) = true := keyEq_refl hx.hash
     have hbinv := buckets_inv key (Q := fun _ => True) seg (fun _ _ _ => trivial)
     have hbm : ∀ i ∈ bucketOf (buckets key seg) (key.val x), i ∈ seg := bucketOf_subset key seg _
-    have hHb : Hyp true sub (bucketOf (buckets key seg) (key.val x) ++ [x]) := hsubH.subset (snoc_subset hbm)
+    have hHb : Hyp true sub (bucketOf (buckets key seg) (key.val x) ++ [x]) := hD.bucket_snoc hskip'
     have hefb : eventFree sub (bucketOf (buckets key seg) (key.val x)) = true :=
       eventFree_bucketOf id kid key sub seg (key.val x) hef
     have hefb' : eventFree sub (bucketOf (buckets key seg) (key.val x) ++ [x]) = true := by
@@ -189,14 +189,14 @@ theorem post_step (id kid : Nat) (key : Fn) (sub : GSpec) (A0 : List (V × V)) (
     have hrec := (gstep_both sub true _ x hHb hefb).1 hsb
     have hns := valOf_not_sentinel sub true _ (by simp) hHb hefb'
     -- `key not in acc`
-    have hfresh : dhas (A0 ++ (buckets key seg).map (fun b => (b.1, valOfC true sub b.2))) (key.val x) =
+    have hfresh : dhas (A0 ++ (buckets key seg).map (fun b => (b.1, implOf sub b.2))) (key.val x) =
         bhas (buckets key seg) (key.val x) := by
       rw [dhas_append, hx.a0, Bool.false_or, dhas_eq, dget_map]
       cases bhas (buckets key seg) (key.val x) <;> rfl
     -- the tree after `if key not in acc: tree[key] = {}`
     let rest1 := if (!bhas (buckets key seg) (key.val x)) = true then dset rest (key.val x) (.dict []) else rest
     have htree1 : (if (!bhas (buckets key seg) (key.val x)) = true then dset tree (key.val x) (.dict []) else tree) =
-        (idKey id, .dict (A0 ++ (buckets key seg).map (fun b => (b.1, valOfC true sub b.2)))) :: rest1 := by
+        (idKey id, .dict (A0 ++ (buckets key seg).map (fun b => (b.1, implOf sub b.2)))) :: rest1 := by
       simp only [rest1]
       split
       · rw [htree, dset_cons_ne hslotx]
@@ -205,20 +205,20 @@ theorem post_step (id kid : Nat) (key : Fn) (sub : GSpec) (A0 : List (V × V)) (
       simp only [rest1]; split
       · exact allDicts_dset hdicts _ _
       · exact hdicts
-    have hsubtree : subTree ((idKey id, V.dict (A0 ++ (buckets key seg).map (fun b => (b.1, valOfC true sub b.2)))) :: rest1)
+    have hsubtree : subTree ((idKey id, V.dict (A0 ++ (buckets key seg).map (fun b => (b.1, implOf sub b.2)))) :: rest1)
         (key.val x) = .ok (treeOf sub (bucketOf (buckets key seg) (key.val x))) := by
       simp only [subTree, dget_cons_ne hslotx, rest1]
       cases hb : bhas (buckets key seg) (key.val x) with
       | false => simp [dget_dset_self _ hkk, bucketOf_of_not_bhas hb, treeOf_nil]
       | true => simp [hsubs _ hb]
     let rest2 := dset rest1 (key.val x) (.dict (treeOf sub (bucketOf (buckets key seg) (key.val x) ++ [x])))
-    refine ⟨(idKey id, .dict (A0 ++ (addTo (buckets key seg) (key.val x) x).map (fun b => (b.1, valOfC true sub b.2)))) ::
+    refine ⟨(idKey id, .dict (A0 ++ (addTo (buckets key seg) (key.val x) x).map (fun b => (b.1, implOf sub b.2)))) ::
       rest2, ?_, ?_⟩
     · simp only [gstep, hhas, if_true, hacc, hmark, hkap]
       simp only [hskip', hnstop, hx.hash, Bool.false_eq_true, if_false, Bool.not_true, hslotx, Bool.false_and]
       rw [hfresh, htree1, hsubtree]
       simp only [hrec, hns.1, hns.2 rfl, Bool.false_eq_true, if_false]
-      have hacc' := dset_map (valOfC true sub) (buckets key seg) (key.val x) x
+      have hacc' := dset_map (implOf sub) (buckets key seg) (key.val x) x
       rw [dset_cons_ne hslotx, dset_append_right hx.a0, hacc']
       simp only [dset, keyEq_idKey, if_true, rest2]
     · simp only [hskip', Bool.false_eq_true, if_false]
@@ -240,25 +240,22 @@ theorem post_step (id kid : Nat) (key : Fn) (sub : GSpec) (A0 : List (V × V)) (
 theorem post_loop (id kid : Nat) (key : Fn) (sub : GSpec) (A0 : List (V × V)) :
     ∀ (post seg : List V) (ret : V) (tree : List (V × V)),
       PostInv id sub A0 (buckets key seg) tree →
-      (∀ x ∈ post, PostItem id key A0 x) → Hyp true sub (seg ++ post) →
+      (∀ x ∈ post, PostItem id key A0 x) → Hyp false (.dict id kid key sub) (seg ++ post) →
       eventFree (.dict id kid key sub) seg = true →
       eventFreeFrom (.dict id kid key sub) seg post = true →
       loopWith (gstep (.dict id kid key sub)) post ret tree =
         .ok (if post.isEmpty then ret
-             else .dict (A0 ++ (buckets key (seg ++ post)).map (fun b => (b.1, valOfC true sub b.2)))) := by
+             else .dict (A0 ++ (buckets key (seg ++ post)).map (fun b => (b.1, implOf sub b.2)))) := by
   intro post
   induction post with
   | nil => intro seg ret tree _ _ _ _ _; simp [loopWith]
   | cons x xs ih =>
     intro seg ret tree hinv hitems hH hef heff
     simp only [eventFreeFrom, Bool.and_eq_true, Bool.not_eq_true'] at heff
-    have hHx : Hyp true sub (seg ++ [x]) := hH.subset (fun i hi => by
-      rcases List.mem_append.mp hi with h1 | h1
-      · exact List.mem_append_left _ h1
-      · exact List.mem_append_right _ (by simp at h1; simp [h1]))
+    have hHx : Hyp false (.dict id kid key sub) (seg ++ [x]) := hH.init_snoc
     obtain ⟨tree', hstep, hinv'⟩ := post_step id kid key sub A0 seg x tree hinv (hitems x List.mem_cons_self) hHx hef heff.1
     have hef' : eventFree (.dict id kid key sub) (seg ++ [x]) = true := by rw [eventFree_snoc, hef, heff.1]; rfl
-    have := ih (seg ++ [x]) (.dict (A0 ++ (buckets key (seg ++ [x])).map (fun b => (b.1, valOfC true sub b.2)))) tree'
+    have := ih (seg ++ [x]) (.dict (A0 ++ (buckets key (seg ++ [x])).map (fun b => (b.1, implOf sub b.2)))) tree'
       hinv' (fun y hy => hitems y (List.mem_cons_of_mem _ hy)) (by simpa using hH) hef' heff.2
     simp only [loopWith, hstep, isStop, Bool.false_eq_true, if_false, this, List.isEmpty_cons]
     cases xs with
@@ -266,6 +263,15 @@ theorem post_loop (id kid : Nat) (key : Fn) (sub : GSpec) (A0 : List (V × V)) :
     | cons y ys => simp
 
 /-! ### up to the collision, and the collision itself -/
+
+theorem eventFree_prefix (s : GSpec) (xs : List V) : ∀ ys, eventFree s (xs ++ ys) = true → eventFree s xs = true := by
+  intro ys
+  induction ys using snoc_induction with
+  | h0 => intro h; simpa using h
+  | hs ys y ih =>
+    intro h
+    rw [← List.append_assoc] at h
+    exact ih (eventFree_init h).1
 
 /-- the loop over an event-free prefix reaches the state of that prefix -/
 theorem loop_prefix (s : GSpec) :
@@ -277,29 +283,9 @@ theorem loop_prefix (s : GSpec) :
   | nil => intro done ys _ _; simp
   | cons x xs ih =>
     intro done ys h hef
-    have hx : Hyp false s (done ++ [x]) := h.subset (fun i hi => by
-      rcases List.mem_append.mp hi with h1 | h1
-      · exact List.mem_append_left _ h1
-      · exact List.mem_append_right _ (by simp at h1; simp [h1]))
-    have hef1 : eventFree s (done ++ [x]) = true := by
-      have : eventFree s ((done ++ [x]) ++ xs) = true := by simpa using hef
-      clear ih
-      induction xs using snoc_induction with
-      | h0 => simpa using this
-      | hs xs y ihx =>
-        apply ihx
-        · exact h.subset (fun i hi => by
-            rcases List.mem_append.mp hi with h1 | h1
-            · exact List.mem_append_left _ h1
-            · exact List.mem_append_right _ (by
-                rcases List.mem_cons.mp h1 with rfl | h2
-                · exact List.mem_cons_self
-                · exact List.mem_cons_of_mem _ (List.mem_append_left _ h2)))
-        · have h3 : eventFree s (((done ++ [x]) ++ xs) ++ [y]) = true := by simpa using this
-          have := (eventFree_init h3).1
-          simpa using this
-        · have h3 : eventFree s (((done ++ [x]) ++ xs) ++ [y]) = true := by simpa using this
-          exact (eventFree_init h3).1
+    have hx : Hyp false s (done ++ [x]) := h.init_snoc
+    have hef1 : eventFree s (done ++ [x]) = true :=
+      eventFree_prefix s (done ++ [x]) xs (by simpa using hef)
     obtain ⟨hef0, hs⟩ := eventFree_init hef1
     have hstep := (gstep_both s false done x hx hef0).1 hs
     have hns := (valOf_not_sentinel s false (done ++ [x]) (by simp) hx hef1).1
@@ -325,7 +311,7 @@ theorem collide_step (id kid : Nat) (key : Fn) (sub : GSpec) (pre : List V) (c :
     (hpre : ∀ y ∈ pre, keyEq (idKey id) (key.val y) = false)
     (hsub : Hyp true sub [c]) (hns : stopsAt sub [] c = false) :
     ∃ tree2, gstep (.dict id kid key sub) c (treeOf (.dict id kid key sub) pre) =
-        .ok (.dict ((buckets key pre).map (fun b => (b.1, valOfC true sub b.2)) ++ [(idKey id, valOfC true sub [c])]),
+        .ok (.dict ((buckets key pre).map (fun b => (b.1, implOf sub b.2)) ++ [(idKey id, implOf sub [c])]),
              tree2) ∧
       PostInv id sub (treeOf sub [c]) [] tree2 := by
   have hkap := apply_of_ok hap
@@ -339,11 +325,11 @@ theorem collide_step (id kid : Nat) (key : Fn) (sub : GSpec) (pre : List V) (c :
     | nil => simp [dhas, dget, dset, levelTree, buckets]
     | cons y ys => simp [dhas, dget, levelTree, keyEq_idKey]
   have hacc : subTree (levelTree id sub (buckets key pre)) (idKey id) =
-      .ok ((buckets key pre).map (fun b => (b.1, valOfC true sub b.2))) := by
+      .ok ((buckets key pre).map (fun b => (b.1, implOf sub b.2))) := by
     simp [subTree, levelTree, dget, keyEq_idKey]
   have hmark := isMarked_levelTree id kid sub (buckets key pre)
   have hnb : bhas (buckets key pre) (idKey id) = false := bhas_false (fun b hb => (hinv b hb).1)
-  have hfresh : dhas ((buckets key pre).map (fun b => (b.1, valOfC true sub b.2))) (idKey id) = false := by
+  have hfresh : dhas ((buckets key pre).map (fun b => (b.1, implOf sub b.2))) (idKey id) = false := by
     rw [dhas_eq, dget_map, hnb]; rfl
   have hrec := (gstep_both sub true [] c (by simpa using hsub) rfl).1 hns
   simp only [treeOf_nil, List.nil_append] at hrec
@@ -368,6 +354,7 @@ theorem collide_step (id kid : Nat) (key : Fn) (sub : GSpec) (pre : List V) (c :
     ALONE — everything grouped before `c`, and `c`'s own bucket, are gone. -/
 theorem f10_exact (id kid : Nat) (key : Fn) (sub : GSpec) (pre post : List V) (c : V)
     (hwf : wfRun (.dict id kid key sub) (pre ++ c :: post) = true)
+    (hwfpost : wfRun (.dict id kid key sub) post = true)
     (hkc : key.val c = idKey id)
     (hsa : ∀ y ∈ pre ++ post, keyEq (idKey id) (key.val y) = false)
     (hsasub : slotApart sub (pre ++ c :: post) = true)
@@ -377,14 +364,14 @@ theorem f10_exact (id kid : Nat) (key : Fn) (sub : GSpec) (pre post : List V) (c
     (ha0 : ∀ y ∈ post, dhas (treeOf sub [c]) (key.val y) = false) :
     groupEval (.dict id kid key sub) (pre ++ c :: post) =
       .ok (if post.isEmpty then
-             .dict ((buckets key pre).map (fun b => (b.1, valOfC true sub b.2)) ++ [(idKey id, valOfC true sub [c])])
-           else .dict (treeOf sub [c] ++ (buckets key post).map (fun b => (b.1, valOfC true sub b.2)))) := by
+             .dict ((buckets key pre).map (fun b => (b.1, implOf sub b.2)) ++ [(idKey id, implOf sub [c])])
+           else .dict (treeOf sub [c] ++ (buckets key post).map (fun b => (b.1, implOf sub b.2)))) := by
   have hwf' := hwf
   simp only [wfRun, Bool.and_eq_true, List.all_eq_true] at hwf'
-  have hsubAll : Hyp true sub (pre ++ c :: post) := ⟨hwf'.2, hsasub, hns⟩
   have hpre_sub : ∀ i ∈ pre, i ∈ pre ++ c :: post := fun i hi => List.mem_append_left _ hi
+  have hpost_sub : ∀ i ∈ post, i ∈ pre ++ c :: post := fun i hi => by simp [hi]
   have hpreH : Hyp false (.dict id kid key sub) pre := by
-    refine ⟨wfRun_subset _ hpre_sub hwf, ?_, ?_⟩
+    refine ⟨wfRun_prefix _ pre (c :: post) hwf, ?_, ?_⟩
     · simp only [slotApart, Bool.and_eq_true, List.all_eq_true, Bool.not_eq_true']
       exact ⟨fun y hy => hsa y (List.mem_append_left _ hy), slotApart_subset sub hpre_sub hsasub⟩
     · simpa only [noSkipBelow] using noSkipBelow_subset true sub hpre_sub hns
@@ -398,7 +385,21 @@ theorem f10_exact (id kid : Nat) (key : Fn) (sub : GSpec) (pre post : List V) (c
       (!(isSkip (key.val c)) && stopsAt sub (bucketOf (buckets key pre) (key.val c)) c)) := rfl
     rw [this, hkc, bucketOf_of_not_bhas hnb] at hstopc
     simpa [isStop, isSkip, idKey] using hstopc
-  have hcH : Hyp true sub [c] := hsubAll.subset (fun i hi => by simp at hi; subst hi; simp)
+  have hcH : Hyp true sub [c] := by
+    refine ⟨?_, slotApart_subset sub (fun i hi => by simp at hi; subst hi; simp) hsasub,
+      noSkipBelow_subset true sub (fun i hi => by simp at hi; subst hi; simp) hns⟩
+    -- `c`'s bucket after `pre ++ [c]` is `[c]`: a bucket of a prefix of the run
+    have hw : wfRun (.dict id kid key sub) (pre ++ [c]) = true :=
+      wfRun_prefix _ (pre ++ [c]) post (by simpa using hwf)
+    simp only [wfRun, Bool.and_eq_true, List.all_eq_true] at hw
+    have h2 := hw.2
+    rw [buckets_snoc, bucketStep_eq, hkc] at h2
+    have hsk : isSkip (idKey id) = false := rfl
+    simp only [hsk, Bool.false_eq_true, if_false] at h2
+    obtain ⟨bn, hbn, hbn2⟩ := addTo_has_new (buckets key pre) (idKey id) c
+    rw [bucketOf_of_not_bhas hnb] at hbn2
+    have := h2 bn hbn
+    rwa [hbn2] at this
   obtain ⟨tree2, hstep, hpost⟩ := collide_step id kid key sub pre c (hwf'.1 c (by simp)).1 hkc
     (fun y hy => hsa y (List.mem_append_left _ hy)) hcH hns0
   -- the loop: up to `c`, `c`, after `c`
@@ -408,9 +409,13 @@ theorem f10_exact (id kid : Nat) (key : Fn) (sub : GSpec) (pre post : List V) (c
   rw [h1]
   have hitems : ∀ x ∈ post, PostItem id key (treeOf sub [c]) x := fun x hx =>
     ⟨(hwf'.1 x (by simp [hx])).1, (hwf'.1 x (by simp [hx])).2, hsa x (List.mem_append_right _ hx), ha0 x hx⟩
-  have hpostH : Hyp true sub ([] ++ post) := hsubAll.subset (fun i hi => by simp at hi; simp [hi])
+  have hpostH : Hyp false (.dict id kid key sub) ([] ++ post) := by
+    refine ⟨by simpa using hwfpost, ?_, ?_⟩
+    · simp only [List.nil_append, slotApart, Bool.and_eq_true, List.all_eq_true, Bool.not_eq_true']
+      exact ⟨fun y hy => hsa y (List.mem_append_right _ hy), slotApart_subset sub hpost_sub hsasub⟩
+    · simpa only [List.nil_append, noSkipBelow] using noSkipBelow_subset true sub hpost_sub hns
   have h2 := post_loop id kid key sub (treeOf sub [c]) post []
-    (.dict ((buckets key pre).map (fun b => (b.1, valOfC true sub b.2)) ++ [(idKey id, valOfC true sub [c])])) tree2
+    (.dict ((buckets key pre).map (fun b => (b.1, implOf sub b.2)) ++ [(idKey id, implOf sub [c])])) tree2
     (by simpa [buckets] using hpost) hitems hpostH rfl hefpost
   simp only [loopWith, hstep, isStop, Bool.false_eq_true, if_false]
   simpa using h2
